@@ -81,24 +81,26 @@ class Family:
 # ---------------------------------------------------------------- building
 
 def cflags(fam, workdir):
-    fl = ['-I' + REPO, '-I' + REPO + '/include', '-I' + REPO + '/include/libast', '-I' + REPO + '/src',
-          '-I' + VERIF + '/harness', '-I' + VERIF + '/stubs', '-I' + workdir, '-D' + GUARD]
-    if fam.debug is None:
-        fl.append('-DHAVE_CONFIG_H')
-    else:
-        fl += ['-include', os.path.join(workdir, 'verif_config.h'), '-DDEBUG=%d' % fam.debug]
+    fl = []
+    if fam.debug is not None:
+        # a derived config.h (the repository's minus its DEBUG line) shadows /repo/config.h
+        fl += ['-I' + os.path.join(workdir, 'cfg'), '-DDEBUG=%d' % fam.debug]
+    fl += ['-I' + REPO, '-I' + REPO + '/include', '-I' + REPO + '/include/libast', '-I' + REPO + '/src',
+           '-I' + VERIF + '/harness', '-I' + VERIF + '/stubs', '-I' + workdir, '-D' + GUARD, '-DHAVE_CONFIG_H']
     fl += ['-D' + d for d in fam.defines]
     return fl
 
 
 def derive_config(workdir):
-    """verif_config.h = /repo/config.h without its DEBUG line (DESIGN 2.2)."""
-    out = os.path.join(workdir, 'verif_config.h')
+    """<workdir>/cfg/config.h = /repo/config.h without its DEBUG line (DESIGN 2.2)."""
+    d = os.path.join(workdir, 'cfg')
+    out = os.path.join(d, 'config.h')
     if os.path.exists(out):
         return
+    os.makedirs(d, exist_ok=True)
     src = open(os.path.join(REPO, 'config.h')).read().splitlines()
-    keep = [l for l in src if not re.match(r'\s*#\s*define\s+DEBUG\b', l) and not l.startswith('#pragma once')]
-    open(out, 'w').write('#ifndef VERIF_CONFIG_H\n#define VERIF_CONFIG_H\n' + '\n'.join(keep) + '\n#endif\n')
+    keep = [l for l in src if not re.match(r'\s*#\s*define\s+DEBUG\b', l)]
+    open(out, 'w').write('\n'.join(keep) + '\n')
 
 
 _build_lock = threading.Lock()
@@ -311,7 +313,7 @@ def label_of(prop):
     desc = prop.get('description', '')
     parts = pid.split('.')
     fn = parts[0] if parts else ''
-    cls = parts[1] if len(parts) > 2 else ''
+    cls = parts[1] if len(parts) > 1 else ''
     if cls == 'assertion':
         return desc
     if cls in ('unwind', 'recursion'):
